@@ -26,6 +26,9 @@ type Program struct {
 	funcByID map[string]*ssa.Function
 
 	df map[*ssa.Function]*funcFacts // cached dataflow per function
+
+	callers   map[*ssa.Function][]Call
+	addrTaken map[*ssa.Function]bool
 }
 
 // repoModules are the three go.work modules of package-operator.
